@@ -444,20 +444,6 @@ func TestVerifC16Concurrent(t *testing.T) {
 
 // ---------------------------------------------------------------- part B: builder finish-once
 
-type vfCountingCollector struct {
-	mu     sync.Mutex
-	traces map[string][]Trace
-}
-
-func (c *vfCountingCollector) Complete(t Trace) {
-	c.mu.Lock()
-	if c.traces == nil {
-		c.traces = map[string][]Trace{}
-	}
-	c.traces[t.TestName] = append(c.traces[t.TestName], t)
-	c.mu.Unlock()
-}
-
 func vfIsTerminal(e Event) bool {
 	switch e := e.(type) {
 	case *ResponseBodyEnd, *ResponseError, *RequestCanceled:
